@@ -6,7 +6,7 @@
    (markQualifiedForAutoHTTPS, enableAutoHTTPS, makePlaintextRedirects, hostHasOtherPort,
    redirPlaintextHost), httpserver/plugin.go (standardizeAddress scheme/port rules, MakeServers'
    TLS-disabling loop, groupSiteConfigsByListenAddr's default port), and Go's net.SplitHostPort,
-   net.JoinHostPort, net.ParseIP (netip.ParseAddr), IPNet.Contains for the four literal CIDRs. *)
+   net.ParseIP (netip.ParseAddr), IPNet.Contains for the four literal CIDRs. *)
 Require Import V.Lib V.GoPath.
 Open Scope N_scope.
 Arguments bs _%string_scope.
@@ -46,7 +46,7 @@ Fixpoint trim_left (set : bytes) (s : bytes) : bytes :=
 Definition trim (set s : bytes) : bytes := rev (trim_left set (rev (trim_left set s))).
 Definition trim_brackets (s : bytes) : bytes := trim [LBR; RBR] s.
 
-(* ------------------------------------------------------------------ net.SplitHostPort / JoinHostPort *)
+(* ------------------------------------------------------------------ net.SplitHostPort *)
 Definition split_host_port (hp : bytes) : option (bytes * bytes) :=
   match last_index_byte COLON hp with
   | None => None                                             (* missing port *)
@@ -73,9 +73,6 @@ Definition split_host_port (hp : bytes) : option (bytes * bytes) :=
         else Some (h, skipn (S i) hp)
     end
   end.
-
-Definition join_host_port (h p : bytes) : bytes :=
-  if contains_byte COLON h then [LBR] ++ h ++ [RBR; COLON] ++ p else h ++ [COLON] ++ p.
 
 (* ------------------------------------------------------------------ net.ParseIP *)
 Definition is_digit (c : N) : bool := (48 <=? c) && (c <=? 57).
@@ -360,8 +357,10 @@ Definition redir_site (c : site) : site :=
      tls := {| en := false; mg := false; mn := false; ss := false; nr := false; od := od (tls c); email := [] |};
      redir := Some (redir_port c) |}.
 
+(* explicitly-HTTP sites (port 80 or scheme http) are skipped: MakeServers disables their TLS *)
 Definition wants_redirect (all : list site) (i : nat) (c : site) : bool :=
-  en (tls c) && negb (nr (tls c)) && negb (host_has_other_port all i P80)
+  en (tls c) && negb (nr (tls c)) && negb (beq (port c) P80) && negb (beq (scheme c) HTTP)
+  && negb (host_has_other_port all i P80)
   && (beq (port c) P443 || negb (host_has_other_port all i P443)).
 
 (* `for i, cfg := range allConfigs` ranges over the ORIGINAL length while the list grows *)
@@ -398,13 +397,17 @@ Definition hexd (v : N) : N := if v <? 10 then 48 + v else 87 + v.
 Definition hex_escape_non_ascii (s : bytes) : bytes :=
   flat_map (fun c => if c <? 128 then [c] else [PERCENT; hexd (c / 16); hexd (c mod 16)]) s.
 
+(* requestHost: net.SplitHostPort only decides whether r.Host carries a port; what is dropped is
+   the ":port" suffix (strings.TrimSuffix(r.Host, ":"+port)), so an IPv6 literal keeps its brackets *)
 Definition strip_port_go (hh : bytes) : bytes :=
-  match split_host_port hh with Some (h, _) => h | None => hh end.
+  match split_host_port hh with
+  | Some (_, p) => if has_suffix hh (COLON :: p) then firstn (length hh - S (length p)) hh else hh
+  | None => hh
+  end.
 
 Definition redir_location (rport hosthdr uri : bytes) : bytes :=
-  let rh := strip_port_go hosthdr in
   hex_escape_non_ascii
-    (bs "https://" ++ (match rport with [] => rh | _ => join_host_port rh rport end) ++ uri).
+    (bs "https://" ++ strip_port_go hosthdr ++ (match rport with [] => [] | _ => COLON :: rport end) ++ uri).
 
 (* ================================================================== executable spec *)
 (* the property's own words, evaluated on the implementation's output *)
